@@ -433,9 +433,13 @@ pub struct Vm {
   pub spawned: Ghost<Seq<FunRef>>,
   /// ghost: contents of the LyBox objects (captured locals), box object -> value
   pub boxes: Ghost<Map<ObjectRef, Value>>,
+  /// ghost (hooks unit): the unwinding boundaries of the nested interpreter runs started by this hook, in order
+  pub nested: Ghost<Seq<Option<int>>>,
+  /// the exit code recorded by set_exit
+  pub exit_code: u16,
 }
 /// the ghost components only some units look at are untouched
-pub open spec fn aux_same(o: &Vm, n: &Vm) -> bool { n.ran == o.ran && n.module_cache == o.module_cache && n.spawned == o.spawned && n.boxes == o.boxes }
+pub open spec fn aux_same(o: &Vm, n: &Vm) -> bool { n.ran == o.ran && n.module_cache == o.module_cache && n.spawned == o.spawned && n.boxes == o.boxes && n.nested == o.nested && n.exit_code == o.exit_code }
 
 pub uninterp spec fn code_u8(ip: int) -> u8;
 pub uninterp spec fn code_u16(ip: int) -> u16;
